@@ -109,7 +109,7 @@ def limit_cases(cfgname):
         if "@" in label:
             elem, rest = label.split("@")
             which, d = rest[:-2], int(rest[-2:])
-            applies = {"reqline": "line", "field": "field", "fieldname": "field", "firstfield": "field",
+            applies = {"reqline": "line", "reqline2": "line", "reqline3": "line", "field": "field", "fieldname": "field", "firstfield": "field",
                        "chunkext": "line", "chunksize": "line", "lastchunkext": "line", "trailer": "field"}[elem]
             lim_here = mls if applies == "line" else mfs
             L = (mls if which == "line" else mfs) + d
